@@ -2,7 +2,7 @@
    Input lines:
      P <sexp of a prog>     answer:  B <wfb> <check diags> <check_pinned diags> <quirk_free> <shadow_free>
                              then one line per mutant of every fault class (Coq's MiniMutate.mutants):
-                                     M <fault> <index> <wfb> <check diags> <check_pinned diags> <sexp of the mutant>
+                                     M <fault> <index> <wfb> <check diags> ? <sexp of the mutant>
                              then    E
      C <sexp of a prog>     answer:  B <wfb> <check diags> <check_pinned diags>      (no mutants)
      (check = the frontend as it is now, check_pinned = the pinned tree with its four defects)
@@ -235,7 +235,7 @@ let () =
            let p = d_prog (parse_sx body) in
            Printf.printf "B %s %d %d\n" (verdicts p) (if quirk_free p then 1 else 0) (if shadow_free p then 1 else 0);
            List.iter (fun fc ->
-               List.iteri (fun i m -> Printf.printf "M %s %d %s %s\n" (fault_name fc) i (verdicts m) (show_sx (e_prog m)))
+               List.iteri (fun i m -> Printf.printf "M %s %d %d %s ? %s\n" (fault_name fc) i (if wfb m then 1 else 0) (diags (check m)) (show_sx (e_prog m)))
                  (mutants fc p)) all_faults;
            print_endline "E"
          | 'Q' ->
